@@ -49,6 +49,8 @@ pub struct GenOpts {
     pub zbdd_order: bool,
     /// 0 = fault-free streams, 1 = writer/reader faults, 2 = stored-byte faults
     pub io_mode: u32,
+    /// never draw a small capacity (C20: the pointer backend has no capacity)
+    pub ample_only: bool,
 }
 
 impl GenOpts {
@@ -66,6 +68,7 @@ impl GenOpts {
             threads: vec![1],
             zbdd_order: false,
             io_mode: 0,
+            ample_only: false,
         }
     }
     pub fn emph(mut self, c: Class, w: u32) -> Self {
@@ -584,6 +587,9 @@ pub fn gen_config(rng: &mut Rng, opts: &GenOpts) -> Config {
     };
     let tight = rng.below(100) < opts.tight_pct as u64;
     let mut capacity = if tight { rng.range(0, 40) as u32 } else { *rng.pick(&[48u32, 96, 96, 1 << 16]) };
+    if opts.ample_only {
+        capacity = 1 << 16;
+    }
     if kind == Kind::Zbdd {
         // the manager cannot be created without room for the tautology chain
         capacity = capacity.max(opts.max_vars + 4);
